@@ -1075,3 +1075,113 @@ func c03ScanFunc(p *Prog) *ssa.Function {
 	}
 	return res
 }
+
+// ---- C02.MAP: a sort only removes the map order from a collected slice when its comparison orders all elements ----
+
+// sortOrdersAll decides whether the sorting call imposes an order in which no two different elements tie. "" when it does
+// (or when nothing can tie by construction); otherwise the reason.
+func sortOrdersAll(p *Prog, call ssa.CallInstruction) string {
+	cc := call.Common()
+	name := calleeFullName(cc)
+	var cmp *ssa.Function
+	switch name {
+	case "sort.Strings", "sort.Ints", "sort.Float64s", "slices.Sort":
+		return "" // the elements are their own keys: equal elements are indistinguishable
+	case "sort.Slice", "sort.SliceStable", "slices.SortFunc", "slices.SortStableFunc":
+		if len(cc.Args) < 2 {
+			return "the comparison is not visible"
+		}
+		switch f := cc.Args[1].(type) {
+		case *ssa.MakeClosure:
+			cmp, _ = f.Fn.(*ssa.Function)
+		case *ssa.Function:
+			cmp = f
+		}
+	case "sort.Sort", "sort.Stable":
+		if mi, ok := cc.Args[0].(*ssa.MakeInterface); ok {
+			want := "(" + typeStr(mi.X.Type()) + ").Less"
+			for _, f := range p.Funcs {
+				if FuncName(f) == want {
+					cmp = f
+				}
+			}
+		}
+	}
+	if cmp == nil || cmp.Blocks == nil {
+		return "the comparison is not visible"
+	}
+	isBefore := p.Method("Pos", "IsBefore")
+	// the elements themselves: loads of an element of the sorted slice (by[i], xs[j]) or the parameters of a SortFunc
+	isElem := func(v ssa.Value) bool {
+		switch x := unwrap(v).(type) {
+		case *ssa.Parameter:
+			return true
+		case *ssa.UnOp:
+			if x.Op == token.MUL {
+				_, ok := x.X.(*ssa.IndexAddr)
+				return ok
+			}
+		}
+		return false
+	}
+	isString := func(v ssa.Value) bool {
+		b, ok := v.Type().Underlying().(*types.Basic)
+		return ok && b.Info()&types.IsString != 0
+	}
+	// every comparison the function makes
+	total, partial := 0, ""
+	fieldsRead := map[string]bool{}
+	eachInstr(cmp, func(_ *ssa.BasicBlock, _ int, in ssa.Instruction) {
+		switch x := in.(type) {
+		case *ssa.FieldAddr:
+			n := fieldAddrName(x)
+			fieldsRead[n[strings.LastIndex(n, ".")+1:]] = true
+		case *ssa.Call:
+			switch {
+			case isBefore != nil && staticCallee(&x.Call) == isBefore:
+				total++
+			case calleeFullName(&x.Call) == "strings.Compare":
+				total++
+			case calleeFullName(&x.Call) == "cmp.Compare" || strings.HasPrefix(calleeFullName(&x.Call), "cmp.Compare["):
+				if isString(x.Call.Args[0]) || isElem(x.Call.Args[0]) {
+					total++
+				} else {
+					partial = "cmp.Compare of one numeric component at " + p.Pos(x.Pos())
+				}
+			}
+		case *ssa.BinOp:
+			switch x.Op {
+			case token.LSS, token.GTR, token.LEQ, token.GEQ:
+			default:
+				return
+			}
+			if _, isConst := x.Y.(*ssa.Const); isConst {
+				return // the sign of a three-way comparison, judged at the call
+			}
+			if _, isConst := x.X.(*ssa.Const); isConst {
+				return
+			}
+			switch {
+			case isString(x.X):
+				total++
+			case isElem(x.X) && isElem(x.Y):
+				total++
+			default:
+				txt := binExprAt(cmp, x.Pos())
+				if txt == "" {
+					txt = x.Op.String()
+				}
+				partial = "a comparison of one numeric component (" + txt + ") at " + p.Pos(x.Pos())
+			}
+		}
+	})
+	switch {
+	case partial != "" && fieldsRead["Line"] && fieldsRead["Col"]:
+		return "" // line, then column: written out component by component
+	case partial != "" && total == 0:
+		return "it is ordered by " + partial + " only: elements that agree on it stay in the order in which the map was visited"
+	case total == 0:
+		return "the comparison at " + p.Pos(cmp.Pos()) + " is of a form that is not decided here"
+	}
+	return ""
+}
